@@ -60,6 +60,13 @@ pub struct GenCfg {
     pub unsized_tail: bool,
     /// C01 refinement: generic Copy+Clone enum with method (known finding F6) excluded when false
     pub allow_copy_clone_method_generic: bool,
+    /// inert attributes and doc comments around the educe attributes; discriminant literal spellings
+    pub noise: bool,
+    /// trivially true extra where-predicates / outlives bounds, const parameters of other types than usize
+    pub extra_generics: bool,
+    /// percent chances of a `#[repr]` attribute and of explicit discriminants (where `reprs` / `discriminants` are on)
+    pub repr_pct: u32,
+    pub disc_pct: u32,
 }
 
 impl GenCfg {
@@ -104,6 +111,10 @@ impl GenCfg {
             attr_pct: 35,
             unsized_tail: false,
             allow_copy_clone_method_generic: true,
+            noise: true,
+            extra_generics: true,
+            repr_pct: 30,
+            disc_pct: 30,
         }
     }
     /// concrete (non-generic) types with plain attributes: the base for behavioural checks
@@ -113,8 +124,10 @@ impl GenCfg {
         c.must = must.to_vec();
         c.pool = pool.to_vec();
         c.trait_pct = 30;
-        c.reprs = false;
-        c.discriminants = false;
+        // layout attributes and explicit discriminants are part of the type definition, not of any educe request: every
+        // behavioural property must hold with them (C04 and C20 stress them specifically)
+        c.reprs = true;
+        c.discriminants = true;
         c.raw_idents = false;
         c.bounds = false;
         c.type_expr = false;
@@ -719,13 +732,23 @@ pub fn build(d: &mut Dna, cfg: &GenCfg) -> Built {
                 attrs.retain(|a| a.tr != Tr::Clone);
             }
             // methods based on Key need `P: Key` on generic parameters
-            fields.push(FieldSpec { name, ty, attrs, split: d.byte(), raw: vec![], default_expect });
+            fields.push(FieldSpec { name, ty, attrs, split: d.byte(), raw: vec![], default_expect, noise: vec![] });
         }
 
         // ---- unique ranks within the variant
         {
             let mut taken: Vec<i64> = Vec::new();
             let special: [i64; 6] = [0, -1, 1, i64::MAX >> 1, -(1 << 40), 7];
+            // the default ranks isize::MIN + position that are really in use: compared fields without an explicit rank
+            let has_rank = |f: &FieldSpec| f.attrs.iter().any(|a| a.params.iter().any(|(p, _)| matches!(p, FParam::Rank(_))));
+            let in_use: Vec<i64> = fields
+                .iter()
+                .enumerate()
+                .filter(|(_, f)| !has_rank(f) && !f.attrs.iter().any(|a| matches!(a.tr, Tr::Ord | Tr::PartialOrd) && a.ignore()))
+                .map(|(i, _)| isize::MIN as i64 + i as i64)
+                .collect();
+            let nf = fields.len() as i64;
+            let mut low_rank = false;
             for f in fields.iter_mut() {
                 for a in f.attrs.iter_mut() {
                     for (p, _) in a.params.iter_mut() {
@@ -734,9 +757,19 @@ pub fn build(d: &mut Dna, cfg: &GenCfg) -> Built {
                             if v == i64::MAX >> 1 {
                                 v = isize::MAX as i64;
                             }
-                            // never collide with another explicit rank nor with the default ranks isize::MIN + position
-                            while taken.contains(&v) || v < isize::MIN as i64 + 64 {
-                                v = if v >= (isize::MAX as i64) - 2 || v < isize::MIN as i64 + 64 { -100 } else { v + 1 };
+                            // an explicit rank inside the range of the default ranks is legal as long as no compared field
+                            // still uses that default (its own position, or the position of an ignored / ranked field)
+                            if d.chance(12) {
+                                v = isize::MIN as i64 + d.pick(nf.max(1) as usize + 1) as i64;
+                            }
+                            // never collide with another explicit rank nor with a default rank that is in use
+                            let mut guard = 0;
+                            while taken.contains(&v) || in_use.contains(&v) || (v < isize::MIN as i64 + 64 && v >= isize::MIN as i64 + nf + 1) {
+                                v = if v >= (isize::MAX as i64) - 2 || guard > 80 { -100 - guard } else { v + 1 };
+                                guard += 1;
+                            }
+                            if v < isize::MIN as i64 + 64 {
+                                low_rank = true;
                             }
                             taken.push(v);
                             *r = v;
@@ -746,6 +779,9 @@ pub fn build(d: &mut Dna, cfg: &GenCfg) -> Built {
             }
             if !taken.is_empty() {
                 classes.push("rank_explicit");
+            }
+            if low_rank {
+                classes.push("rank_explicit_in_default_range");
             }
         }
 
@@ -789,7 +825,7 @@ pub fn build(d: &mut Dna, cfg: &GenCfg) -> Built {
                 vattrs.push(TAttr::flag(Tr::Default));
             }
         }
-        variants.push(VariantSpec { name: vname, shape, fields, disc: None, attrs: vattrs, split: d.byte(), raw: vec![] });
+        variants.push(VariantSpec { name: vname, shape, fields, disc: None, attrs: vattrs, split: d.byte(), raw: vec![], noise: vec![], disc_sp: 0 });
     }
 
     // ---------------------------------------------------------------- Debug naming (type, variant, field)
@@ -1062,7 +1098,7 @@ pub fn build(d: &mut Dna, cfg: &GenCfg) -> Built {
 
     // ---------------------------------------------------------------- repr and discriminants
     let mut repr: Option<String> = None;
-    if cfg.reprs && d.chance(30) {
+    if cfg.reprs && d.chance(cfg.repr_pct) {
         let all_unit = variants.iter().all(|v| v.shape == Shape::Unit);
         let opts: Vec<&str> = match kind {
             Kind::Enum if nvariants == 0 => vec![],
@@ -1090,7 +1126,7 @@ pub fn build(d: &mut Dna, cfg: &GenCfg) -> Built {
             classes.push("repr_attr");
         }
     }
-    if kind == Kind::Enum && cfg.discriminants && nvariants > 0 && d.chance(30) {
+    if kind == Kind::Enum && cfg.discriminants && nvariants > 0 && d.chance(cfg.disc_pct) {
         let all_unit = variants.iter().all(|v| v.shape == Shape::Unit);
         let prim = repr.as_deref().map(|r| r.split(',').any(|p| is_int_ty(p.trim()))).unwrap_or(false);
         if all_unit || prim {
@@ -1104,13 +1140,17 @@ pub fn build(d: &mut Dna, cfg: &GenCfg) -> Built {
             let mut next: i128 = 0;
             for v in variants.iter_mut() {
                 if d.chance(60) {
-                    let cand = match d.pick(6) {
+                    let cand = match d.pick(9) {
                         0 => lo,
                         1 => hi - (variants_len_hint(nvariants) as i128),
                         2 => -1,
                         3 => 100,
                         4 => next + 3,
-                        _ => 7,
+                        5 => 7,
+                        // small values: they coincide with the declaration positions of other variants
+                        6 => 1,
+                        7 => 2,
+                        _ => nvariants as i128 - 1,
                     };
                     let mut c = cand.clamp(lo, hi - 8);
                     while used.contains(&c) || (lo >= 0 && c < 0) {
@@ -1203,7 +1243,7 @@ pub fn build(d: &mut Dna, cfg: &GenCfg) -> Built {
             }
         }
     }
-    let mut spec = TypeSpec { kind, name: type_name, gens, repr, traits: tattrs, split: d.byte(), variants, raw: vec![], extra_items: vec![] };
+    let mut spec = TypeSpec { kind, name: type_name, gens, repr, traits: tattrs, split: d.byte(), variants, raw: vec![], extra_items: vec![], noise: vec![], disc_shift: false };
 
     // type-level Default expression: a full constructor of the default variant, all fields value 1
     if type_level_default_expr {
@@ -1220,6 +1260,102 @@ pub fn build(d: &mut Dna, cfg: &GenCfg) -> Built {
             }
         }
     }
+
+    // ---------------------------------------------------------------- tail decisions (kept last so that earlier choices keep their stream positions)
+    if cfg.noise {
+        const TYPE_NOISE: [&str; 7] = ["^/// A documented type.", "#[allow(dead_code)]", "^#[doc = \"text\"]", "#[must_use]", "^#[allow(clippy::all)]", "/** block doc */", "#[non_exhaustive]"];
+        const INNER_NOISE: [&str; 7] = ["^/// documented", "#[allow(dead_code)]", "^#[doc = \"x\"]", "/// after the attributes", "^#[cfg(all())]", "#[doc(hidden)]", "^/** block */"];
+        let mut any = false;
+        if d.chance(25) {
+            let n = 1 + d.pick(2);
+            for _ in 0..n {
+                let c = *d.choose(&TYPE_NOISE);
+                if c == "#[non_exhaustive]" && spec.kind == Kind::Union {
+                    continue;
+                }
+                if !spec.noise.iter().any(|x| x == c) {
+                    spec.noise.push(c.to_string());
+                    any = true;
+                }
+            }
+        }
+        let inner_pct = if d.chance(30) { 35 } else { 0 };
+        for v in spec.variants.iter_mut() {
+            if spec.kind == Kind::Enum && d.chance(inner_pct) {
+                let c = if d.chance(15) { "#[non_exhaustive]" } else { *d.choose(&INNER_NOISE) };
+                v.noise.push(c.to_string());
+                any = true;
+            }
+            for f in v.fields.iter_mut() {
+                if d.chance(inner_pct) {
+                    f.noise.push(d.choose(&INNER_NOISE).to_string());
+                    if d.chance(30) {
+                        let c = *d.choose(&INNER_NOISE);
+                        if !f.noise.iter().any(|x| x == c) {
+                            f.noise.push(c.to_string());
+                        }
+                    }
+                    any = true;
+                }
+            }
+        }
+        if any {
+            classes.push("inert_attributes");
+        }
+        let mut spelled = false;
+        for v in spec.variants.iter_mut() {
+            if v.disc.is_some() && d.chance(45) {
+                v.disc_sp = 1 + d.pick(5) as u8;
+                spelled = true;
+            }
+        }
+        if spelled {
+            classes.push("discriminant_literal_spelling");
+        }
+    }
+    if cfg.extra_generics && !spec.gens.is_empty() && nvariants_nonzero(&spec) {
+        let mut extra: Vec<String> = Vec::new();
+        let sized = "::core::marker::Sized";
+        if let Some(t) = spec.gens.types.iter().find(|t| !t.bounds.iter().any(|b| b == "?Sized")) {
+            let t = t.name.clone();
+            if d.chance(12) {
+                extra.push(match d.pick(3) {
+                    0 => format!("[{t}; 1]: {sized}"),
+                    1 => format!("for<'z9> &'z9 {t}: {sized}"),
+                    _ => format!("({t}, u8): {sized}"),
+                });
+            }
+            if let Some((l, _)) = spec.gens.lifetimes.first() {
+                if d.chance(10) {
+                    extra.push(format!("{t}: '{l}"));
+                }
+            }
+        }
+        if spec.gens.lifetimes.len() == 2 && spec.gens.lifetimes[1].1.is_empty() && d.chance(20) {
+            extra.push(format!("'{}: '{}", spec.gens.lifetimes[1].0, spec.gens.lifetimes[0].0));
+        }
+        if !extra.is_empty() {
+            if d.chance(50) {
+                spec.gens.where_preds.extend(extra);
+            } else {
+                for (i, e) in extra.into_iter().enumerate() {
+                    spec.gens.where_preds.insert(i.min(spec.gens.where_preds.len()), e);
+                }
+            }
+            classes.push("extra_where_predicates");
+        }
+        if cfg.consts && !want_unsized && d.chance(7) {
+            let taken: Vec<String> = spec.gens.types.iter().map(|t| t.name.clone()).chain(spec.gens.consts.iter().map(|c| c.name.clone())).collect();
+            let name = const_names.iter().find(|n| !taken.contains(n)).cloned().unwrap_or_else(|| "K9".to_string());
+            if !taken.contains(&name) && name != spec.name {
+                let (ty, inst) = *d.choose(&[("bool", "true"), ("char", "'x'"), ("u8", "7"), ("i32", "-1"), ("usize", "3")]);
+                let need_default = spec.gens.types.iter().any(|t| t.default.is_some()) || spec.gens.consts.iter().any(|c| c.default.is_some());
+                let default = if need_default { Some(inst.to_string()) } else { None };
+                spec.gens.consts.push(ConstParam { name, ty: ty.into(), default, inst: inst.into() });
+                classes.push("const_param_other_type");
+            }
+        }
+    }
     if spec.variants.iter().any(|v| v.fields.iter().any(|f| f.name.as_deref().map(|n| n.starts_with("r#")).unwrap_or(false))) {
         classes.push("raw_identifier");
     }
@@ -1229,6 +1365,10 @@ pub fn build(d: &mut Dna, cfg: &GenCfg) -> Built {
         Kind::Union => "kind_union",
     });
     Built { spec, classes }
+}
+
+fn nvariants_nonzero(s: &TypeSpec) -> bool {
+    !(s.kind == Kind::Enum && s.variants.is_empty())
 }
 
 fn variants_len_hint(n: usize) -> usize {
